@@ -310,17 +310,28 @@ def body(ctx):
 
     # ================================================================ lhs
     sizes = [1, 2, 3, 4, 5, 7, 10, 33, 100] + ([250, 500] if ctx.thorough else [200])
-    for it in range(ctx.scale(400, 2600)):
-        def one_case():
-            n = sizes[it] if it < len(sizes) else rng.choice(sizes + [rng.randint(1, sizes[-1])])
+    def lhs_case(it, preset=None):
+            n = sizes[it] if 0 <= it < len(sizes) else rng.choice(sizes + [rng.randint(1, sizes[-1])])
             nparams = rng.randint(1, 6)
-            pmin, pmax = [], []
+            pmin, pmax, shapes_used = [], [], set()
             for _ in range(nparams):
-                mag = 10.0 ** rng.randint(-3, 5)
-                lo = rng.choice([0.0, -mag, mag, rng.uniform(-mag, mag)])
-                width = rng.choice([mag, rng.uniform(0.01, 10) * mag, 1.0])
-                # keep a stratum much wider than the spacing of doubles at the ends of the range
-                width = max(width, 1e-6 * n * max(abs(lo), 1e-300))
+                shape = rng.choice(["usual"] * 6 + ["narrow"] * 3 + ["wide"])
+                shapes_used.add(shape)
+                if shape == "narrow":
+                    # absolute width 1e-14 .. 1e-8 at offsets 0, 0.5, 1e6 ...: strata far narrower than any absolute
+                    # constant, but still >= 2048 doubles wide so that they are distinct floats
+                    lo = rng.choice([0.0, 0.0, 1e-12, 0.5, -0.5, 1.0, 1e6])
+                    width = 10.0 ** rng.uniform(-14, -8)
+                    width = max(width, 2048 * n * math.ulp(max(abs(lo), abs(lo + width))))
+                elif shape == "wide":
+                    lo = rng.choice([-1e300, 0.0, 1e299, -5e299])
+                    width = rng.choice([1e300, 1.5e300, 1e299])
+                else:
+                    mag = 10.0 ** rng.randint(-3, 5)
+                    lo = rng.choice([0.0, -mag, mag, rng.uniform(-mag, mag)])
+                    width = rng.choice([mag, rng.uniform(0.01, 10) * mag, 1.0])
+                    # keep a stratum much wider than the spacing of doubles at the ends of the range
+                    width = max(width, 1e-6 * n * max(abs(lo), 1e-300))
                 pmin.append(lo)
                 pmax.append(lo + width)
             bcast = rng.random() < 0.15
@@ -330,10 +341,16 @@ def body(ctx):
                 pmax = [top] * nparams
             else:
                 pmax_arg = list(pmax) if rng.random() < 0.7 else np.array(pmax)
-            if any((b - a) / n < 1e-7 * max(abs(a), abs(b)) for a, b in zip(pmin, pmax)):
+            if preset is not None:
+                n, pmin, pmax = int(preset["n"]), [float(v) for v in preset["pmin"]], [float(v) for v in preset["pmax"]]
+                nparams, bcast, pmax_arg = len(pmin), False, list(pmax)
+            # a stratum must span many doubles, or "one sample per stratum" is not a statement about floats any more
+            if any((b - a) / n < 1024 * math.ulp(max(abs(a), abs(b))) for a, b in zip(pmin, pmax)):
                 return
             inject = None
             u = rng.random()
+            if preset is not None:
+                u = 1.0
             if u < 0.08:
                 inject = ("id", 0.0)
             elif u < 0.16:
@@ -361,7 +378,8 @@ def body(ctx):
                 add(f"lhs {n} {C.flist(pmin)} {C.flist([pmax[0]] if bcast else pmax)} "
                     f"[{';'.join(','.join(str(k) for k in p) for p in dr.perms)}] {C.fmat(dr.unit)}", "lhs", cols, case)
                 ctx.count(("lhs", n, tuple(pmin), tuple(pmax), tuple(cols[0][:4])), n >= 2,
-                          f"lhs/n={'1' if n == 1 else '2-9' if n < 10 else '10+'}/" + ("injected" if inject else "numpy-draws"),
+                          f"lhs/n={'1' if n == 1 else '2-9' if n < 10 else '10+'}/" + ("injected" if inject else "numpy-draws")
+                          + ("/corpus" if preset is not None else "".join("/" + k for k in sorted(shapes_used - {"usual"}))),
                           sample={"op": "lhs", "n": n, "pmin": pmin, "pmax": pmax, "first_rows": smp[:3].tolist()})
                 # ---- oracle: exactly one point per stratum [pmin + k du, pmin + (k+1) du), exact rationals
                 for j in range(nparams):
@@ -403,7 +421,16 @@ def body(ctx):
                 if how is not None:
                     ctx.hist['lhs/caller_edit/' + how] = ctx.hist.get('lhs/caller_edit/' + how, 0) + 1
                     step('lhs/after_caller_edit')
-        attempt('lhs', one_case)
+
+    # corpus first (minimised past failures), several numpy seeds each
+    for f in sorted((C.ROOT / "corpus" / PID).glob("*.json")):
+        import json as _json
+        c = _json.loads(f.read_text())
+        if c.get("entry") == "lhs":
+            for _ in range(int(c.get("repeat", 1))):
+                attempt('lhs', lambda: lhs_case(-1, c))
+    for it in range(ctx.scale(400, 2600)):
+        attempt('lhs', lambda: lhs_case(it))
 
     # malformed lhs
     for (n, a, b) in [(3, [0, 0], [1, 1, 1]), (3, [0, 1], [1, 1]), (3, [0, 1], [1, 0.5]), (4, [2.0], [2.0]),
